@@ -253,7 +253,7 @@ _P = 'window: int, f1: int, s1: int, s2: int'
 _PRE = ['1 <= window <= 3', '-1 <= f1 <= 5', '-1 <= s1 <= 60', '-1 <= s2 <= 60']
 OB_DL = dict(
     id='CO.download', impl='protocol_fixed', params=_P, pre=_PRE,
-    cases=[('stream', 3, -1), ('stream', 4, -1), ('stream', 3, 4)],
+    cases=[('stream', 3, -1), ('stream', 4, -1)],
     cases_thorough=[('stream', 3, -1), ('stream', 4, -1), ('stream', 3, 4), ('stream', 2, 4), ('seekable', 3, -1),
                     ('seekable', 4, 2)],
     splits=[['f1 == -1', '%d <= s1 <= %d' % (a, a + 9)] for a in range(-1, 59, 10)],
@@ -262,7 +262,7 @@ OB_DL = dict(
     bounds='one ranged download of a 15-byte object in 3 parts x 1 chunk (concrete sizes: the schedule is the subject) '
            'to a non-seekable stream (thorough: also seekable); window 1..3 '
            'symbolic; every GetObjectTask on its own model thread, one IO thread; default order = submission order '
-           'plus one (third case and thorough: two) preemptions of chosen tasks when they have existed for a symbolic '
+           'plus one (thorough: two) preemptions of chosen tasks when they have existed for a symbolic '
            'number of steps; thorough: a retryable stream fault at a symbolic byte position',
     encodes=['DownloadSubmissionTask._submit_ranged_download_request', 'TransferCoordinator.submit',
              'BoundedExecutor.submit', 'SlidingWindowSemaphore.acquire/release', 'GetObjectTask._main/_handle_io',
